@@ -30,6 +30,8 @@ import (
 	"github.com/AdguardTeam/AdGuardDNS/verif/simnet"
 	"github.com/ameshkov/dnscrypt/v2"
 	"github.com/miekg/dns"
+	"github.com/quic-go/quic-go"
+	"github.com/quic-go/quic-go/http3"
 	"golang.org/x/crypto/curve25519"
 	"golang.org/x/crypto/nacl/box"
 )
@@ -346,13 +348,16 @@ func startServers(s *kernel.Sim, n *simnet.Net, p *pipeline, o serverOpts) (sv *
 	}
 
 	if o.doh {
+		// HTTP/1.1 and HTTP/2 over TCP, HTTP/3 over QUIC on the same address.
 		hc := base("doh", addrDoH)
-		hc.Network = dnsserver.NetworkTCP
 		h2 := tlsConf.Clone()
 		h2.NextProtos = []string{"h2", "http/1.1"}
+		h3 := tlsConf.Clone()
+		h3.NextProtos = []string{"h3", "h2", "http/1.1"}
 		sv.all = append(sv.all, dnsserver.NewServerHTTPS(dnsserver.ConfigHTTPS{
 			ConfigBase:     hc,
 			TLSConfDefault: h2,
+			TLSConfH3:      h3,
 		}))
 	}
 
@@ -529,4 +534,28 @@ func (c *dcClient) open(b []byte) (raw []byte, err error) {
 	r := dnscrypt.EncryptedResponse{EsVersion: c.cert.EsVersion}
 
 	return r.Decrypt(b, c.shared)
+}
+
+
+// h3Transport returns an HTTP/3 client transport whose QUIC connections run
+// over a socket of the simulated network, and a function that releases it.
+func h3Transport(n *simnet.Net, ip netip.Addr, sni string) (rt *http3.Transport, done func()) {
+	pc, err := n.DialPacket(n.ClientAddr(ip))
+	if err != nil {
+		panic(err)
+	}
+	qt := &quic.Transport{Conn: pc}
+	rt = &http3.Transport{
+		TLSClientConfig: clientTLS(sni, "h3"),
+		QUICConfig:      &quic.Config{MaxIdleTimeout: 100 * time.Second},
+		Dial: func(ctx context.Context, _ string, tlsCfg *tls.Config, cfg *quic.Config) (quic.EarlyConnection, error) {
+			return qt.DialEarly(ctx, net.UDPAddrFromAddrPort(netip.MustParseAddrPort(addrDoH)), tlsCfg, cfg)
+		},
+	}
+
+	return rt, func() {
+		_ = rt.Close()
+		_ = qt.Close()
+		_ = pc.Close()
+	}
 }
